@@ -289,6 +289,25 @@ class Sym:
 
     __hash__ = None
 
+    def __round__(self, ndigits=None):
+        """round(x, n): the multiple of 10^-n nearest to x, as an integer ghost m with |x * 10^n - m| <= 1/2 (ties: either way --
+        an over-approximation of round-half-to-even that is exact off the measure-zero tie set)."""
+        if self.is_const():
+            v = round(Fraction(self.const_value()), ndigits)
+            return v if ndigits is None else Sym(Poly.const(Fraction(v)))
+        st = _need_state()
+        nd = 0 if ndigits is None else int(ndigits)
+        scale = Fraction(10) ** nd
+        key = ("round", self.key(), nd)
+        m = st.memo.get(key)
+        if m is None:
+            m = Sym(Poly.var(st.fresh("m", "int")))
+            st.memo[key] = m
+            d = self * Sym(Poly.const(scale)) - m
+            st.hyps.append(("le", d - Sym(Poly.const(Fraction(1, 2)))))
+            st.hyps.append(("le", -d - Sym(Poly.const(Fraction(1, 2)))))
+        return m / Sym(Poly.const(scale)) if ndigits is not None else m
+
     def is_integer(self):
         """float.is_integer() of a symbolic value: a decision.  On the True branch the value equals a fresh integer ghost (exact);
         on the False branch nothing is added (an over-approximation: the branch is explored for every value)."""
